@@ -85,9 +85,12 @@ def chromosomeOp (j : Json) : Except String Json := do
       else throw "mark: 4 fields expected"))) (← arg j "marks")
   let ans : C13Chr.Answers := { hits := lookupTab hits, marks := lookupTab marks }
   let P := C13Chr.tableProc "chrF" ans
+  let flt : IsoVerif.Model.Regions.Params := { noSecondary := ← jBool (← arg j "no_secondary"), minMapq := ← jInt (← arg j "min_mapq") }
   match IsoVerif.Model.Regions.collect mode all with
   | none => pure (jErr "error")
-  | some out =>
+  | some out0 =>
+    -- the records that are never assigned get no record and do not stretch the gene region
+    let out := C13Chr.procOut flt out0
     let loads := out.map (fun ra =>
       Json.mkObj [("region", ofIv ra.1), ("gene_region", ofIv (C13Chr.loadRegion repaired ra)),
                   ("genes", ofNatList ((C13Chr.loadGenes genes (C13Chr.loadRegion repaired ra)).map (·.gid))),
@@ -104,8 +107,59 @@ def chromosomeOp (j : Json) : Except String Json := do
         | some st => ofList (fun (r : CountRow) => Json.arr #[ofInt r.fi.start, ofInt r.fi.stop, ofNat r.incl, ofNat r.excl]) (dumpRows st)
     pure (Json.mkObj [("loads", Json.arr loads.toArray), ("kept", Json.arr kept.toArray), ("rows", rows)])
 
+
+/-- `chromosome_profiles` (closure `p13local`): one chromosome through the collector model (C05), the gene loading of every
+    (sub-)region, the REAL profile work (`exonProc` / `intronProc`: GeneInfo of the loaded genes, construct_exon_profile /
+    construct_intron_profile, set_feature_properties), the resolver (C08) and the exon / intron counters -/
+def chromosomeProfilesOp (j : Json) : Except String Json := do
+  let all ← IsoVerif.Driver.C05.jAlns (← arg j "alns")
+  let mode ← IsoVerif.Driver.C05.jMode (← arg j "mode")
+  let repaired ← jBool (← arg j "repaired")
+  let genes ← jList (fun g => do
+      let a ← g.getArr?
+      if a.size = 3 then pure ({ gid := ← jNat a[0]!, span := (← jInt a[1]!, ← jInt a[2]!) } : C13Chr.GeneRec)
+      else throw "gene: 3 fields expected") (← arg j "genes")
+  let hits ← jList (jPair jNat (jList (jPair jNat jNat))) (← arg j "hits")
+  let isos ← jList (jPair jNat (jList jIsoform)) (← arg j "isoforms")
+  let reads ← jList (jPair jNat (fun r => do
+      pure ({ blocks := ← jIvList (← arg r "blocks"), polya := ← jInt (← arg r "polya"), polyt := ← jInt (← arg r "polyt"),
+              group := ← jStr (← arg r "group") } : ReadAln))) (← arg j "reads")
+  let ans : C13Chr.Answers := { hits := lookupTab hits, marks := fun _ => [] }
+  let A : C13Chr.Ann :=
+    { chr := ← jStr (← arg j "chr"), delta := ← jInt (← arg j "d"), absDelta := ← jInt (← arg j "abs_d"),
+      isoforms := lookupTab isos,
+      reads := fun r => match reads.lookup r with
+        | some x => x
+        | none => { blocks := [], polya := -1, polyt := -1, group := "NA" } }
+  let flt : IsoVerif.Model.Regions.Params := { noSecondary := ← jBool (← arg j "no_secondary"), minMapq := ← jInt (← arg j "min_mapq") }
+  match IsoVerif.Model.Regions.collect mode all with
+  | none => pure (jErr "error")
+  | some out0 =>
+    -- the records that are never assigned get no record and do not stretch the gene region
+    let out := C13Chr.procOut flt out0
+    let loads := out.map (fun ra =>
+      Json.mkObj [("region", ofIv ra.1), ("gene_region", ofIv (C13Chr.loadRegion repaired ra)),
+                  ("genes", ofNatList ((C13Chr.loadGenes genes (C13Chr.loadRegion repaired ra)).map (·.gid))),
+                  ("rids", ofNatList (ra.2.map (·.rid)))])
+    let table (P : C13Chr.Proc) : Json × Json :=
+      let its := C13Chr.chrItems repaired genes P out
+      let rids := dedupNat [] (its.map (·.brec.readId))
+      let kept := rids.map (fun rid => match C13Chr.keptEvents its rid with
+        | none => Json.arr #[ofNat rid, jErr "error"]
+        | some evs => Json.arr #[ofNat rid, ofNat evs.length])
+      let rows := match C13Chr.collectEvents its rids with
+        | none => jErr "error"
+        | some evs => match countAll coordKey FeatureInfo.merge true "NA" evs with
+          | none => jErr "error"
+          | some st => ofList (fun (r : CountRow) => Json.arr #[ofInt r.fi.start, ofInt r.fi.stop, ofNat r.incl, ofNat r.excl]) (dumpRows st)
+      (Json.arr kept.toArray, rows)
+    let (ke, re) := table (C13Chr.exonProc A ans)
+    let (_, ri) := table (C13Chr.intronProc A ans)
+    pure (Json.mkObj [("loads", Json.arr loads.toArray), ("kept", ke), ("exon", re), ("intron", ri)])
+
 def ops : List (String × Handler) := [
   ("chromosome", chromosomeOp),
+  ("chromosome_profiles", chromosomeProfilesOp),
   ("exon_profile", fun j => do
       pure (ofProfile (constructExonProfile (← jIvList (← arg j "known")) (← jIv (← arg j "gene_region")) (← jInt (← arg j "d"))
         (← jIvList (← arg j "blocks")) (← jInt (← arg j "polya")) (← jInt (← arg j "polyt"))))),
